@@ -152,6 +152,15 @@ _CLASS_CACHE: "collections.OrderedDict[str, object]" = collections.OrderedDict()
 _MODULE_SEQ = [0]
 
 
+def define_named(src: str, name: str):
+    """exec the source in a NEW module object registered under a GIVEN module name (replacing whatever module had that
+    name before, as a reload / a notebook cell run again / a class factory would). Never cached."""
+    mod = types.ModuleType(name)
+    sys.modules[name] = mod
+    exec(compile(src, f"<{name}>", "exec", dont_inherit=True), mod.__dict__)  # noqa: S102 - generated from our own AST
+    return mod
+
+
 def define(src: str):
     """exec the source in a real module registered in sys.modules (haiway resolves annotations through
     typing.get_type_hints, which reads the module globals). Cached by source text. Returns the module."""
